@@ -109,4 +109,17 @@ var plans = map[string]Plan{
 			"FloPoCo instances are created with a stand-in for the absent flopoco tool (its VHDL does not affect the assembler)",
 		},
 	},
+	"C01": {
+		Pkg: "c01",
+		Runs: []Run{
+			{Test: "^TestProps$/^lockstep$", Checks: checks(1500, 40000), Shards: shards(6, 16)},
+		},
+		Assumptions: []string{
+			"A1: the generated Verilog is executed by /verif's 2-state interpreter with power-up zero; A2: intra-assignment delays (<= #1) are ordinary non-blocking assignments, the harness owns the clock",
+			"retire point in hardware = a cycle with reset low in which _pc receives a non-blocking assignment; in the simulator = a Step after which the instruction completed",
+			"inputs change only at retire boundaries, identically on both sides; valid is held high; the output environment echoes valid as received (4-phase consumer)",
+			"the co-implemented table (harness/c01/table.go) is part of the oracle; opcodes outside it are not compared (reasons listed there)",
+			"comparison stops at end of program (simulator halts, hardware runs on) and before a division/modulo by zero",
+		},
+	},
 }
